@@ -7,6 +7,14 @@ HOOK_COMMITS = subprocess.run(['git','-C','/repo','log','--format=%h %s'],captur
 hooks = [l.split()[0] for l in HOOK_COMMITS if 'verif hook' in l]
 
 CLAIMED = {
+ 'C03': dict(
+   text="Deductive proof of the union shape of the pairwise merge where it is a per-call property: mergeTypes (no error) yields exactly keys(a) ∪ non-builtin keys(b), all definitions non-nil; mergeRootObjects keeps every root field of the schema being merged in (prefix, by identity) and every non-builtin root field of the accumulated side (by name) - which is where the order-dependent loss of Query.node was found and fixed; the routing side is C04. Fields, arguments, enum values, union members and directives of non-root types, and the final FormatSchema + LoadSchema round trip, are not under contract.",
+   note="Assumed: modifies clauses marked assumed (the merge helpers do not change the visible contents of the input schemas); gqlparser ForName model; AST non-nil invariants.",
+   ref="DESIGN.md §5 C03", technique="contract-based deductive verification (set-shaped postconditions over maps and field lists, z3+cvc5)"),
+ 'C05': dict(
+   text="Deductive proof of conflict => error as postconditions of the pairwise merge, for arbitrary schemas: a name used for different kinds (mergeTypes), the same root field declared by both sides other than the Relay entry point (mergeRootObjects), with the node-entry-point definition taken from the property statement (isNodeField). The postcondition 'a shared field with different types is rejected' is stated on mergeCustomObjectFields and FAILS: recorded as an open known finding (B15). Node-implementation mismatch, union member differences, the 'neither identical nor disjoint' rule and order independence of the fold (B16, see DESIGN) are not decided.",
+   note="Assumed: (*ast.Type).String / Name as ghost functions; modifies clauses marked assumed; panics inside gqlparser are out of scope.",
+   ref="DESIGN.md §5 C05", technique="contract-based deductive verification (error-path postconditions with loop invariants over map iteration, z3+cvc5)"),
  'C04': dict(
    text="Deductive proof of the functional contracts of the routing table: TypeURLMap.Set/Get/SetTypeIsImplementsNode/GetTypeIsImplementsNode (exact effect plus frame over all other (type, field) pairs and flags), isNodeField against the property's definition of the Relay entry point (name node, one argument id: ID!, nullable Node), SetFromSchema (every non-builtin, non-id, non-entry-point field of every non-builtin object of the schema is routed to that service; types not declared as objects by the schema are untouched; every route is either unchanged or now points to this service; IsImplementsNode iff some processed schema lists Node) and the fold in ExtendMergerFunc.Merge (every declared field of every input has a route; every route names some input's URL), for arbitrary schemas and any number of services. 'Exactly the one service' for root fields additionally needs C05's overlap rejection (not claimed).",
    note="Assumed: mergeTypes and the schema re-load do not modify the input schemas (modifies-assumed); AST element/field non-nil invariants (validator post-condition); (*ast.Type).Name as ghost TName; map iteration models every order.",
